@@ -163,9 +163,10 @@ pub fn systematic_h(r: usize, n: usize, h0: &[bool], tail: &[bool], staircase: b
 }
 
 pub fn strategy(_t: Tier) -> BoxedStrategy<Case> {
-    (1usize..=5, 1usize..=4, any::<u16>(), any::<bool>(), any::<bool>(), 0..4u8)
+    (prop_oneof![3 => 1usize..=5, 2 => 6usize..=12], 1usize..=4, any::<u16>(), any::<bool>(), any::<bool>(), 0..4u8)
         .prop_flat_map(|(p, bsm, rraw, staircase, psk8, patkind)| {
-            let bs = 3 * bsm; // block size multiple of 3: every transmitted length is a multiple of 3
+            // block size multiple of 3: every transmitted length is a multiple of 3 (long patterns get small blocks)
+            let bs = 3 * if p > 6 { bsm.min(2) } else { bsm };
             let n = p * bs;
             let r = 2 + idx(rraw, (n - 2).min(11)); // 2 <= r <= min(12, n-1)
             let pattern: BoxedStrategy<Option<Vec<bool>>> = match patkind {
@@ -384,6 +385,15 @@ pub fn check(c: &Case, p: &mut Probe) -> Check {
             }
         }
     }
+    // independent noise between frames and between workers: no two recorded frames may be
+    // bit-identical (a shared or re-seeded generator would repeat whole frames)
+    {
+        let mut seen = std::collections::HashSet::new();
+        for f in frames.iter() {
+            let key: Vec<u64> = f.iter().map(|x| x.to_bits()).collect();
+            ensure!(seen.insert(key), "repeated-frame", "two frames handed to the decoder are bit-identical: messages/noise are not drawn independently per frame and worker {ctx}");
+        }
+    }
     p.metric("nonconverged_inversions", nonconv as f64);
     ensure!(nonconv * 1000 <= cnt.max(1), "inversion", "{nonconv} of {cnt} 8PSK LLR triples could not be inverted to a received sample {ctx}");
     p.inner += frames.len() as u64;
@@ -421,7 +431,7 @@ pub fn property() -> Property {
         id: "C12",
         subs: vec![Box::new(Sub {
             name: "llr-frames",
-            rule: "configurations: systematic H by construction ([H0 | staircase] or [H0 | unit lower triangular], 2 <= r <= 12, n = p x bs with bs a multiple of 3), puncturing pattern none / AR4JA-like 1,1,1,1,0 / random with >= 1 true (may puncture information blocks), interleaver none or +-c with c a divisor of the transmitted length, BPSK or 8PSK, Eb/N0 chosen for an expected sigma of 0.10-0.18 (BPSK) or 0.03-0.06 (8PSK), through BerTest::new or BerTestBuilder; a probe DecoderFactory records every LLR vector and answers Err with one systematic bit flipped. Oracles per frame: length n; punctured positions bit-exactly +0.0, all others finite and non-zero; signs equal the own systematic re-encoding of the first k sign bits (or, when information blocks are punctured, extend to a codeword by an own GF(2) solve); reported k, N_cw, N, rate. Noise: received samples recovered from the LLRs (BPSK exactly, 8PSK by Gauss-Newton inversion of the own exact LLR function) with the expected sigma computed from (k, N after puncturing, bits per symbol, Eb/N0); mean, variance (Wilson-Hilferty), <w,s> scale statistic, lag-1 and re/im correlation within +-7 sigma once >= 5000 samples were collected. Non-trivial = puncturing and interleaving both present, or 8PSK with either; inner = frames examined",
+            rule: "configurations: systematic H by construction ([H0 | staircase] or [H0 | unit lower triangular], 2 <= r <= 12, n = p x bs with pattern length p in 1..=12 and bs a multiple of 3), puncturing pattern none / AR4JA-like 1,1,1,1,0 / random with >= 1 true (may puncture information blocks), interleaver none or +-c with c a divisor of the transmitted length, BPSK or 8PSK, Eb/N0 chosen for an expected sigma of 0.10-0.18 (BPSK) or 0.03-0.06 (8PSK), through BerTest::new or BerTestBuilder; a probe DecoderFactory records every LLR vector and answers Err with one systematic bit flipped. Oracles per frame: length n; punctured positions bit-exactly +0.0, all others finite and non-zero; signs equal the own systematic re-encoding of the first k sign bits (or, when information blocks are punctured, extend to a codeword by an own GF(2) solve); reported k, N_cw, N, rate. no two recorded frames bit-identical (independence across frames and workers). Noise: received samples recovered from the LLRs (BPSK exactly, 8PSK by Gauss-Newton inversion of the own exact LLR function) with the expected sigma computed from (k, N after puncturing, bits per symbol, Eb/N0); mean, variance (Wilson-Hilferty), <w,s> scale statistic, lag-1 and re/im correlation within +-7 sigma once >= 5000 samples were collected. Non-trivial = puncturing and interleaving both present, or 8PSK with either; inner = frames examined",
             cases: |t| t.pick(500, 20_000),
             strategy,
             check,
